@@ -117,7 +117,7 @@ def _dispatch(repo, rep):
               construct="comment-option", where=L.where(f))
     # attributes: heuristic '${' in text, expr None
     f = repo.func(PROG + "_create_attributes_nodes")
-    t = " ".join(src(s) for s in ast.walk(f.node) if isinstance(s, ast.stmt))
+    t = L.text(f.node)
     rep.check("if expr is None and text is not None and ('${' in text):" in t,
               "R06.1", f.qualname, "a static attribute value interpolates "
               "iff it contains '${' (attributes are not subject to the "
@@ -154,7 +154,7 @@ def _stack(repo, rep):
     rep.check(ok, "R06.2", f.qualname, "any other value is a LanguageError",
               construct="switch-error", where=L.where(f))
     init = repo.func(PROG + "__init__")
-    t = " ".join(src(s) for s in init.node.body)
+    t = L.text(init.node, body_only=True)
     rep.check("self._interpolation = [True]" in t, "R06.2", init.qualname,
               "interpolation is on at the top level",
               construct="switch-initial", where=L.where(init))
@@ -274,8 +274,7 @@ def _decode(repo, rep):
               "names such as &frac12;)", construct="entity-body-class",
               detail=detail[:200])
     sub = repo.func("chameleon.utils.substitute_entity")
-    t = " ".join(src(s) for s in ast.walk(sub.node)
-                 if isinstance(s, ast.stmt))
+    t = L.text(sub.node)
     rep.check("return chr(int(ent))" in t and
               "return chr(int('0x' + ent, 16))" in t and
               "return match.group()" in t, "R06.3", sub.qualname,
@@ -305,7 +304,7 @@ def _loop(repo, rep):
                   + (" or a bare variable name" if var else ""),
                   construct="regex:" + nm,
                   detail=getattr(rc, "pattern", "?"))
-    t = " ".join(src(s) for s in ast.walk(g.node) if isinstance(s, ast.stmt))
+    t = L.text(g.node)
     # shrink step
     shrink = [n for n in ast.walk(g.node) if isinstance(n, ast.Assign)
               and src(n.targets[0]) == "matched"
